@@ -451,6 +451,45 @@ impl ECaseSpec {
     }
 }
 
+/// unit-struct hosts (seed C08-10): every field of the counterpart comes from `..update` (hint `as {}`), or from
+/// `#[ghosts]` + `..update`, optionally with vars the update expression reads
+pub fn unit_update_modules() -> Vec<(String, Vec<String>, Vec<String>)> {
+    let mut v = vec![];
+    let d = "#[derive(Clone, Debug, PartialEq, Default)]";
+    for hint in [true, false] {
+        for ghosts in [false, true] {
+            if !hint {
+                // without a hint a unit struct maps to a unit struct (no literal, nothing to update), and with NAMED ghosts it
+                // is rendered as a tuple literal `T(a: 5)` - the wrong-designator family of KF-C17-06, not C08's business
+                continue;
+            }
+            for vars in [false, true] {
+                let h = if hint { " as {}" } else { "" };
+                let upd = |cp: &str| if vars { format!("vars(vz: {{ logv(1, 5) }}), ..{cp} {{ b: vz, ..{}base() }}", cp.to_lowercase()) } else { format!("..{}base()", cp.to_lowercase()) };
+                let mut item = format!("#[into(T{h}| {})]\n#[try_into(Tf{h}, Er| {})]\n", upd("T"), upd("Tf"));
+                if ghosts {
+                    item.push_str("#[ghosts(a: { 5 })]\n");
+                }
+                item.push_str("pub struct S;\n");
+                let mut m = String::from("#![allow(unused, non_camel_case_types, clippy::all)]\nuse crate::common::*;\nuse o2o::traits::*;\n");
+                m.push_str(&format!("{d} pub struct T {{ pub a: i32, pub b: i32, pub c: i32 }}\n{d} pub struct Tf {{ pub a: i32, pub b: i32, pub c: i32 }}\n"));
+                m.push_str("fn tbase() -> T { T { a: 801, b: 802, c: 803 } }\nfn tfbase() -> Tf { Tf { a: 801, b: 802, c: 803 } }\n");
+                m.push_str(&format!("#[derive(Clone, Debug, PartialEq, Default, o2o::o2o)]\n{}", item));
+                let (a, b) = (if ghosts { 5 } else { 801 }, if vars { 5 } else { 802 });
+                let log = if vars { "vec![1]" } else { "Vec::<i64>::new()" };
+                m.push_str("pub fn run(r: &mut Rec) {\n");
+                m.push_str(&format!("  {{ take_log(); let got = <S as Into<T>>::into(S); r.eq(\"owned_into/value\", &got, &T {{ a: {a}, b: {b}, c: 803 }}); r.eq(\"owned_into/vars-log\", &take_log(), &{log}); }}\n"));
+                m.push_str(&format!("  {{ take_log(); let got = <&S as Into<T>>::into(&S); r.eq(\"ref_into/value\", &got, &T {{ a: {a}, b: {b}, c: 803 }}); r.eq(\"ref_into/vars-log\", &take_log(), &{log}); }}\n"));
+                m.push_str(&format!("  {{ take_log(); let got = <S as TryInto<Tf>>::try_into(S); r.eq(\"try_owned_into/value\", &got, &Ok::<_, Er>(Tf {{ a: {a}, b: {b}, c: 803 }})); r.eq(\"try_owned_into/vars-log\", &take_log(), &{log}); }}\n"));
+                m.push_str(&format!("  {{ take_log(); let got = <&S as TryInto<Tf>>::try_into(&S); r.eq(\"try_ref_into/value\", &got, &Ok::<_, Er>(Tf {{ a: {a}, b: {b}, c: 803 }})); r.eq(\"try_ref_into/vars-log\", &take_log(), &{log}); }}\n"));
+                m.push_str("}\n");
+                v.push((m, vec![item], vec!["host=unit-struct".to_string(), format!("hint={}", hint), format!("ghosts={}", ghosts), format!("vars={}", vars)]));
+            }
+        }
+    }
+    v
+}
+
 fn nested_bounds(tier: &str) -> (crate::sem_flat::FlatOpts, Option<usize>, usize, Option<usize>) {
     use crate::sem_flat::FlatOpts;
     if tier == "quick" {
@@ -462,7 +501,7 @@ fn nested_bounds(tier: &str) -> (crate::sem_flat::FlatOpts, Option<usize>, usize
 
 pub fn run(tier: &str) -> i32 {
     let rep = Report::new("C08", tier, "model_checking");
-    rep.set_rule("part A (placement, structural): each of the 24 trait-instruction names x {named struct, enum with ghosts, struct with bare parent + ghosts} x every subset of {attribute, impl_attribute, inner_attribute, vars} in EVERY order x terminal {none, ..update, return} + a parameterless instruction for a second counterpart: in every impl the instruction produces (M_appl) the attribute is an outer attribute of the fn, the impl_attribute of the impl, the inner_attribute an inner attribute at the head of the fn body, each exactly once and nowhere else; impls of the other instruction carry none. Part B (behaviour through rustc + execution): per direction group {from, into, into_existing} x {vars or not} x {none, ..update, return} x {bare #[parent] member or not}, all 12 kinds: vars expressions call a logging helper - the log must be [vz, va, member expression] (each once, in DECLARATION order - the names are declared in non-alphabetical order -, vars first) and member expressions read both; ..base() supplies exactly the leaves no member provides; return make(M) is the whole result (*other == make(M) for into_existing); the same for an enum host (tuple / named variant): vars are evaluated once before the generated match - also when the unit variant is converted -, quick return replaces the match; `update-child` / `update-parent`: the flattening cases of C03 (#[child] + #[child_parents], parameterised #[parent(..)]) with `..Default::default()` on the conversions and one more field in EVERY struct of the result - the nested ones included - that only the update expression can supply (0 after Into / From, untouched by IntoExisting). states = distinct inputs / test modules");
+    rep.set_rule("part A (placement, structural): each of the 24 trait-instruction names x {named struct, enum with ghosts, struct with bare parent + ghosts} x every subset of {attribute, impl_attribute, inner_attribute, vars} in EVERY order x terminal {none, ..update, return} + a parameterless instruction for a second counterpart: in every impl the instruction produces (M_appl) the attribute is an outer attribute of the fn, the impl_attribute of the impl, the inner_attribute an inner attribute at the head of the fn body, each exactly once and nowhere else; impls of the other instruction carry none. Part B (behaviour through rustc + execution): per direction group {from, into, into_existing} x {vars or not} x {none, ..update, return} x {bare #[parent] member or not}, all 12 kinds: vars expressions call a logging helper - the log must be [vz, va, member expression] (each once, in DECLARATION order - the names are declared in non-alphabetical order -, vars first) and member expressions read both; ..base() supplies exactly the leaves no member provides; return make(M) is the whole result (*other == make(M) for into_existing); the same for an enum host (tuple / named variant): vars are evaluated once before the generated match - also when the unit variant is converted -, quick return replaces the match; `update-child` / `update-parent`: the flattening cases of C03 (#[child] + #[child_parents], parameterised #[parent(..)]) with `..Default::default()` on the conversions and one more field in EVERY struct of the result - the nested ones included - that only the update expression can supply (0 after Into / From, untouched by IntoExisting); `update-unit`: unit-struct hosts whose counterpart fields all come from `..update` (hint `as {}`) or from #[ghosts] + `..update`, with and without vars read by the update expression. states = distinct inputs / test modules");
     rep.assume("the statement's `on every impl the instruction produces` is read with M_appl; bare #[parent] is combined with vars only (its combination with ..update / return is KF-C17-01)");
     let caps = Caps::from_env(if tier == "quick" { 200.0 } else { 1200.0 });
     run_space(&Placement, None, &caps, &rep);
@@ -486,6 +525,12 @@ pub fn run(tier: &str) -> i32 {
         items.lock().unwrap().push(BItem { space: "update-parent".into(), choices: ch.to_vec(), tags: c.tags.clone(), inputs: vec![c.item("S", true).render()], module: c.render_module(), nontrivial: true });
     });
     rep.add_stats("update-parent", &pb.map(|b| format!("dev({})", b)).unwrap_or("full".into()), &st);
+    let uu = unit_update_modules();
+    let nu = uu.len() as u64;
+    for (i, (module, inputs, tags)) in uu.into_iter().enumerate() {
+        items.lock().unwrap().push(BItem { space: "update-unit".into(), choices: vec![i as u32], tags, inputs, module, nontrivial: true });
+    }
+    rep.add_stats("update-unit", "full (fixed layouts)", &crate::explore::ExploreStats { leaves: nu, transitions: nu, ..Default::default() });
     if let Err(e) = run_items("C08", items.into_inner().unwrap(), &rep, BOpts { no_std: false, features: "", name: "c08".into(), keep: std::env::var("VERIF_KEEP").is_ok() }) {
         eprintln!("MACHINERY-ERROR: {}", e);
         return 2;
@@ -510,6 +555,7 @@ pub fn replay(f: &Failure) -> i32 {
                 let (c, full) = replay_one(gen_e, &f.choices);
                 mk(c.map(|c| (c.tags.clone(), c.item_text(), c.render_module())), full)
             }
+            "update-unit" => unit_update_modules().into_iter().enumerate().find(|(i, _)| vec![*i as u32] == f.choices).map(|(_, (module, inputs, tags))| BItem { space: f.space.clone(), choices: f.choices.clone(), tags, inputs, module, nontrivial: true }),
             "update-child" => {
                 let mut got = None;
                 for t in ["quick", "thorough"] {
